@@ -1,5 +1,46 @@
 """Real ClockErrorBoundPoller over a real unix socket, in a private mount namespace (C13 part i)."""
+import json
+import os
+
+from . import daemon, sandbox
+from .common import NPROC
 
 
 def run_real(ctx):
-    return {"violations": [], "evaluations": 0, "distinct": 0, "note": "not built yet"}
+    if not sandbox.available():
+        return {"violations": [], "evaluations": 0, "distinct": 0, "inconclusive": "unshare -m with a private tmpfs on /run is not available"}
+    b = daemon.build(ctx)
+    q = ctx.quick()
+    jobs = []
+    outs = []
+    n = NPROC
+    for i in range(n):
+        o = os.path.join(ctx.tmp, "c13real-%d.json" % i)
+        outs.append(o)
+        silent = "1" if (not q and i < 4) else "0"
+        count = (40 if silent == "1" else (400 if q else 6000)) * n
+        jobs.append(sandbox.wrap([b, "c13real", "--seed", str(ctx.seed * 1000 + 13), "--count", str(count), "--shard", "%d/%d" % (i, n), "--out", o, "--replays", ctx.replay_dir, "--silent", silent]))
+    res = ctx.run_parallel(jobs, 1500)
+    agg = {"evaluations": 0, "distinct": 0, "steps": 0, "coarse_reads": 0, "kinds": {}, "threshold_edges": {}, "violations": [], "samples": []}
+    lost = 0
+    for (rc, text), o in zip(res, outs):
+        if rc != 0 or not os.path.exists(o):
+            lost += 1
+            ctx.log("c13real shard lost rc=%s %s" % (rc, text[-300:]))
+            continue
+        j = json.load(open(o))
+        if j.get("inconclusive"):
+            agg["inconclusive"] = j["inconclusive"]
+        for k in ("evaluations", "distinct", "steps", "coarse_reads"):
+            agg[k] += j.get(k, 0)
+        for k in ("kinds", "threshold_edges"):
+            for kk, vv in j.get(k, {}).items():
+                agg[k][kk] = agg[k].get(kk, 0) + vv
+        agg["violations"] += j["violations"]
+        agg["samples"] += j["samples"][:1]
+    if lost:
+        agg["inconclusive"] = "%d real-poller runs did not finish" % lost
+    e = agg["threshold_edges"]
+    if not agg.get("inconclusive") and (min(e.get(k, 0) for k in ("start-up", "5s-1ns", "5s", "5s+1ns", "inside", "beyond")) < 5):
+        agg["inconclusive"] = "threshold edges not all exercised: %s" % e
+    return agg
